@@ -230,6 +230,12 @@ module Z =
   | S n1 -> Zpos (Pos.of_succ_nat n1)
  end
 
+(** val tl : 'a1 list -> 'a1 list **)
+
+let tl = function
+| [] -> []
+| _ :: m -> m
+
 (** val nth : nat -> 'a1 list -> 'a1 -> 'a1 **)
 
 let rec nth n0 l default =
@@ -555,25 +561,11 @@ let inst_m o =
   | Some p -> let (e, _) = p in e
   | None -> None
 
-(** val bump_subs : hier -> nat -> z -> nat -> cstate list -> cstate list **)
+(** val set_class : world -> nat -> value option -> world **)
 
-let rec bump_subs h c v i = function
-| [] -> []
-| s :: r ->
-  (if in_mro h c i
-   then { cs_m = s.cs_m; cs_ver = (Z.add v (Z.of_nat i)) }
-   else s) :: (bump_subs h c v (S i) r)
-
-(** val set_class : bool -> hier -> world -> nat -> value option -> world **)
-
-let set_class fx h w c e =
-  let l = upd w.w_cls c { cs_m = e; cs_ver = w.w_next } in
-  if fx
-  then { w_cls = (bump_subs h c (Z.add w.w_next (Zpos XH)) O l); w_objs =
-         w.w_objs; w_cache = w.w_cache; w_next =
-         (Z.add (Z.add w.w_next (Zpos XH)) (Z.of_nat (length w.w_cls))) }
-  else { w_cls = l; w_objs = w.w_objs; w_cache = w.w_cache; w_next =
-         (Z.add w.w_next (Zpos XH)) }
+let set_class w c e =
+  { w_cls = (upd w.w_cls c { cs_m = e; cs_ver = w.w_next }); w_objs =
+    w.w_objs; w_cache = w.w_cache; w_next = (Z.add w.w_next (Zpos XH)) }
 
 (** val set_obj : world -> nat -> ostate -> world **)
 
@@ -583,17 +575,12 @@ let set_obj w oi o =
 
 (** val read_obj_ver : hier -> world -> nat -> world * z **)
 
-let read_obj_ver h w oi =
+let read_obj_ver _ w oi =
   match nth_error w.w_objs oi with
   | Some o ->
     (match o.os_dict with
      | Some p -> let (_, v) = p in (w, v)
-     | None ->
-       (match (getc h o.os_cls).cdictk with
-        | Managed ->
-          ((set_obj w oi { os_cls = o.os_cls; os_dict = (Some (None,
-             w.w_next)) }), w.w_next)
-        | _ -> (w, Z0)))
+     | None -> (w, Z0))
   | None -> (w, Z0)
 
 (** val vINIT : z **)
@@ -619,10 +606,20 @@ let set_cache w k p =
 let prefilter h c =
   (||) (has_dict h c) (is_py (getc h c))
 
-(** val slow_path :
-    bool -> hier -> world -> nat -> nat -> ostate -> world * result **)
+(** val is_ext : cls -> bool **)
 
-let slow_path cached h w k oi o =
+let is_ext d =
+  negb (is_py d)
+
+(** val static_bases : hier -> nat -> bool **)
+
+let static_bases h c =
+  forallb (fun b -> is_ext (getc h b)) (tl (getc h c).cmro)
+
+(** val slow_path :
+    bool -> bool -> hier -> world -> nat -> nat -> ostate -> world * result **)
+
+let slow_path cached fx h w k oi o =
   let guard = tp_ver w o.os_cls in
   (match lookup h (cd_w w) o.os_cls (inst_m o) with
    | TWrap k' ->
@@ -631,8 +628,10 @@ let slow_path cached h w k oi o =
           then let tv = tp_ver w o.os_cls in
                let (w1, ov) = read_obj_ver h w oi in
                ((set_cache w1 k
-                  (if Z.eqb guard tv then (tv, ov) else (vINIT, vINIT))),
-               (RBody k))
+                  (if (&&) (Z.eqb guard tv)
+                        ((||) (negb fx) (static_bases h o.os_cls))
+                   then (tv, ov)
+                   else (vINIT, vINIT))), (RBody k))
           else (w, (RBody k))
      else (w, (RBody k'))
    | TFn n0 -> (w, (RFn n0))
@@ -640,9 +639,10 @@ let slow_path cached h w k oi o =
    | TNoAttr -> (w, RAttrError))
 
 (** val cbody :
-    bool -> hier -> world -> nat -> bool -> nat -> ostate -> world * result **)
+    bool -> bool -> hier -> world -> nat -> bool -> nat -> ostate ->
+    world * result **)
 
-let cbody cached h w k skip oi o =
+let cbody cached fx h w k skip oi o =
   if skip
   then (w, (RBody k))
   else if (||) (getc h k).cdecl_dict (prefilter h o.os_cls)
@@ -651,17 +651,17 @@ let cbody cached h w k skip oi o =
                  then let (w1, v) = read_obj_ver h w oi in
                       if Z.eqb (snd (cache_find w.w_cache k)) v
                       then (w1, (RBody k))
-                      else slow_path cached h w1 k oi o
-                 else slow_path cached h w k oi o
-            else slow_path cached h w k oi o
+                      else slow_path cached fx h w1 k oi o
+                 else slow_path cached fx h w k oi o
+            else slow_path cached fx h w k oi o
        else (w, (RBody k))
 
 (** val dispatch_cy :
-    bool -> hier -> world -> nat -> ostate -> world * result **)
+    bool -> bool -> hier -> world -> nat -> ostate -> world * result **)
 
-let dispatch_cy cached h w oi o =
+let dispatch_cy cached fx h w oi o =
   match vslot h o.os_cls with
-  | Some k -> cbody cached h w k false oi o
+  | Some k -> cbody cached fx h w k false oi o
   | None -> (w, RInvalid)
 
 (** val step_cy :
@@ -669,13 +669,12 @@ let dispatch_cy cached h w oi o =
 
 let step_cy cached fx h w = function
 | SetClass (c, v) ->
-  ((if (&&) (validc h c) (is_py (getc h c))
-    then set_class fx h w c (Some v)
-    else w), None)
+  ((if (&&) (validc h c) (is_py (getc h c)) then set_class w c (Some v) else w),
+    None)
 | DelClass c ->
   ((if (&&) (validc h c) (is_py (getc h c))
     then (match cd_w w c with
-          | Some _ -> set_class fx h w c None
+          | Some _ -> set_class w c None
           | None -> w)
     else w), None)
 | New c ->
@@ -710,19 +709,25 @@ let step_cy cached fx h w = function
             set_obj w oi { os_cls = o0.os_cls; os_dict = (Some (None,
               w.w_next)) }
           | None -> w)
-       | None -> w)
+       | None ->
+         (match (getc h o0.os_cls).cdictk with
+          | Managed ->
+            set_obj w oi { os_cls = o0.os_cls; os_dict = (Some (None,
+              w.w_next)) }
+          | _ -> w))
     | None -> w), None)
 | CallPy oi ->
   (match nth_error w.w_objs oi with
    | Some o0 ->
      (match lookup h (cd_w w) o0.os_cls (inst_m o0) with
       | TWrap k ->
-        let (w1, r) = cbody cached h w k true oi o0 in (w1, (Some r))
+        let (w1, r) = cbody cached fx h w k true oi o0 in (w1, (Some r))
       | x -> (w, (Some (res_of_target x))))
    | None -> (w, (Some RInvalid)))
 | CallC oi ->
   (match nth_error w.w_objs oi with
-   | Some o0 -> let (w1, r) = dispatch_cy cached h w oi o0 in (w1, (Some r))
+   | Some o0 ->
+     let (w1, r) = dispatch_cy cached fx h w oi o0 in (w1, (Some r))
    | None -> (w, (Some RInvalid)))
 | CallVia (c, oi) ->
   (match nth_error w.w_objs oi with
@@ -734,7 +739,7 @@ let step_cy cached fx h w = function
               | Fn n0 -> (w, (Some (RFn n0)))
               | Wrap k ->
                 if in_mro h k o0.os_cls
-                then let (w1, r) = cbody cached h w k true oi o0 in
+                then let (w1, r) = cbody cached fx h w k true oi o0 in
                      (w1, (Some r))
                 else (w, (Some RTypeError)))
            | None -> (w, (Some RAttrError)))
@@ -749,11 +754,6 @@ let rec run_cy cached fx h w = function
   (match snd (step_cy cached fx h w o) with
    | Some x -> x :: (run_cy cached fx h (fst (step_cy cached fx h w o)) r)
    | None -> run_cy cached fx h (fst (step_cy cached fx h w o)) r)
-
-(** val is_ext : cls -> bool **)
-
-let is_ext d =
-  negb (is_py d)
 
 (** val wf_cls : hier -> nat -> cls -> bool **)
 
